@@ -20,7 +20,8 @@ RULE = (
     "kinds, headers, exitings, ordered targets, back edges, tables, assignments; an exception is "
     "part of the dump), and for programs the front-end graph from source, the front-end graph from "
     "bytecode, their restructured forms and the regenerated source text; the parent compares the "
-    "digests across processes. Classes: uniform/structured/loop-hostile graphs, graphs relabelled "
+    "digests across processes; every other process walks its cases in reverse order, so state "
+    "leaking from one case into the next also shows. Classes: uniform/structured/loop-hostile graphs, graphs relabelled "
     "with long random names and with names sorting against insertion order, generated programs. "
     "distinct = hash of the case; non-trivial = restructuring inserted at least one synthetic block "
     "(so set-iteration order could matter)"
@@ -61,9 +62,9 @@ def plan(tier, seed):
                          "count": min(per, total - start)})
     shards = []
     for gi, w in enumerate(work):
-        for h in seeds_for(tier, seed):
+        for hi, h in enumerate(seeds_for(tier, seed)):
             sp = dict(w)
-            sp.update({"group": gi, "hashseed": h, "tier": tier,
+            sp.update({"group": gi, "hashseed": h, "tier": tier, "reverse": hi % 2 == 1,
                        "_env": {"PYTHONHASHSEED": h}})
             shards.append(sp)
     return shards
@@ -129,8 +130,14 @@ def run_shard(spec):
     digests = {}
     k = spec["kind"]
     acc.counters["hashseed." + str(spec.get("hashseed"))] += 1
+    # every other process walks its cases in reverse order: state that leaks
+    # from one case into the next (module-level counters, caches) then shows up
+    # as a difference between processes
+    rng_idx = list(range(spec.get("start", 0), spec.get("start", 0) + spec.get("count", 0)))
+    if spec.get("reverse"):
+        rng_idx.reverse()
     if k == "graphs":
-        for i in range(spec["start"], spec["start"] + spec["count"]):
+        for i in rng_idx:
             g = graphs.make_case(spec["cls"], spec["seed"], i)
             if g is None:
                 continue
@@ -143,7 +150,7 @@ def run_shard(spec):
                         nontrivial_hash=core.graph_hash(g) if nt else None,
                         sample=(acc.evaluations % 97 == 0))
     elif k == "programs":
-        for i in range(spec["start"], spec["start"] + spec["count"]):
+        for i in rng_idx:
             src = programs.make_program(spec["cls"], spec["seed"], i)
             parts, nt = program_parts(src)
             key = f"prog:{spec['cls']}/{spec['seed']}/{i}"
